@@ -69,6 +69,28 @@ fn main() {
             _ => i += 1,
         }
     }
+    // watchdog: a case that does not terminate ends the process with a record of the case
+    {
+        let out_dir = out.clone();
+        let mode = args[1].clone();
+        std::thread::spawn(move || loop {
+            std::thread::sleep(std::time::Duration::from_millis(200));
+            let cur = exec::CURRENT.lock().unwrap().clone();
+            if let Some((line, t0)) = cur {
+                // bombs and the cost families run children / long parses with their own limits
+                let limit = if line.starts_with("bomb ") || line.starts_with("cost ") || line.starts_with("cli ") || line.starts_with("send") { 300 } else { exec::HANG_SECS };
+                if t0.elapsed().as_secs() > limit {
+                    if mode == "exec" {
+                        println!("{}\n(hang)\nFAIL no termination within {} s", line, limit);
+                    } else {
+                        let _ = std::fs::create_dir_all(&out_dir);
+                        let _ = std::fs::write(format!("{}/hang.txt", out_dir), &line);
+                    }
+                    std::process::exit(3);
+                }
+            }
+        });
+    }
     match args[1].as_str() {
         "exec" => {
             let stdin = std::io::stdin();
